@@ -118,7 +118,7 @@ def plan(prop, tier):
     elif prop == "C03":
         cfgs = ["default", "naive", "lowmem-a"] if q else ["default", "naive", "lowmem-a", "lowmem-b", "optdef", "static-avx2", "unsafe"]
         many("c03-history", cfgs, shards=16, scale=2.0 if q else 1.0, main=cfgs if q else ("default", "naive", "lowmem-a"), minor_shards=16)
-        many("c03-history", ["default", "naive", "lowmem-a"], profile="dbg", shards=8, scale=0.5, main=("default", "naive", "lowmem-a"))
+        many("c03-history", ["default", "naive", "lowmem-a"], profile="dbg", shards=8, scale=0.5 if q else 0.2, main=("default", "naive", "lowmem-a"))
         miri("c03-history", "default-avx2", 0.0008, 0.04)
         # one piece longer than u32::MAX must behave like the same bytes in smaller pieces
         steps.append(S("c11-huge-slice", "default", shards=1 if q else 2, params={"property": "C03"}, timeout=2 * 3600))
